@@ -138,7 +138,12 @@ func cliRobust(name string, data []byte) string {
 	must(os.WriteFile(dir+"/"+name, data, 0o644))
 	r := runCLI(dir, []string{name}, nil, nil, 30*time.Second)
 	if r.timedOut {
-		return "hang 0 0 clean"
+		// a loaded machine (other shards asking for gigabytes at the same moment) can stall a run that takes
+		// milliseconds alone: "did not finish" is reported only when a second, longer attempt does not finish either
+		r = runCLI(dir, []string{name}, nil, nil, 120*time.Second)
+		if r.timedOut {
+			return "hang 0 0 clean"
+		}
 	}
 	top, lines := 0, 0
 	for _, l := range strings.Split(string(r.stdout), "\n") {
